@@ -91,6 +91,26 @@ theorem henry_unit_mode_agrees (τ H θ τ0 K : ℝ) (hK : K ≠ 0) :
     henryHAtTU (τ * K) H (θ * K) (τ0 * K) K = henryHAtT τ H θ τ0 :=
   ⟨henryHAtTDefaultU_eq τ H θ K hK, henryHAtTU_eq τ H θ τ0 K hK⟩
 
+/-- `Henry` / `HenryWithUnits` OBJECTS (constructor parameters Hcp, Tderiv, T0 default or not): with `Tderiv`, `T0` given in the unit
+    `K` and the temperature in that unit, `HenryWithUnits.__call__` (= `Henry.__call__` with the units object) returns what the plain
+    object returns, so do the two helpers; at the instance's reference temperature the tabulated constant itself is returned. -/
+theorem henry_object_unit_mode_agrees (h : Henry ℝ) (τ x K : ℝ) (hK : K ≠ 0) :
+    (h.inUnit K).callWithUnits (τ * K) K = h.call τ ∧
+    (h.inUnit K).getCU (τ * K) x K = h.getC τ x ∧ (h.inUnit K).getPU (τ * K) x K = h.getP τ x ∧
+    (h.inUnit K).callWithUnits (h.T0.getD 298.15 * K) K = h.Hcp := by
+  have e := fun τ => Henry.callU_inUnit h τ K hK
+  refine ⟨e τ, ?_, ?_, ?_⟩
+  · simp only [Henry.getCU, Henry.getC, e]
+  · simp only [Henry.getPU, Henry.getP, e]
+  · simp only [Henry.callWithUnits, e, Henry.at_T0]
+
+/-- water_self_diffusion_coefficient with the documented `err_mult` option (D0, TS perturbed by multiples of their uncertainties):
+    unit mode agrees for every perturbation, and no perturbation is the plain correlation -/
+theorem water_diffusivity_err_mult_unit_mode_agrees (τ e0 e1 K m s : ℝ) (hK : K ≠ 0) :
+    waterDiffusivityErrU (τ * K) e0 e1 K m s = waterDiffusivityErr τ e0 e1 * (m ^ 2 / s) ∧
+    waterDiffusivityErr τ 0 0 = waterDiffusivity τ :=
+  ⟨waterDiffusivityErrU_eq τ e0 e1 K m s hK, waterDiffusivityErr_zero τ⟩
+
 /-- nernst_potential (as repaired: the ratio is converted with `to_unitless`): concentrations in ANY common-dimension
     unit `x` (mM, M, mol/m³ …: only the ratio of SI values enters), result in `joule / coulomb` -/
 theorem nernst_unit_mode_agrees (a b z τ C mol J K x : ℝ) (hK : K ≠ 0) (hmol : mol ≠ 0) (hx : x ≠ 0) :
@@ -279,6 +299,11 @@ example : (sulfuricAcidDensityUV (1/2 : Rat) (UV.mk 300000 (1/1000) Tdim) (UV.mk
 
 example : water_density_unit_mode_agrees 300 1 (1/100) (1/1000) one_ne_zero =
     water_density_unit_mode_agrees 300 1 (1/100) (1/1000) one_ne_zero := rfl
+
+/-- a Henry constant tabulated at 20 °C (T0 = 293.15 K), quantities in mK: unit-mode value at T0 is the tabulated constant -/
+example : ((⟨1.3e-3, 1500, some 293.15⟩ : Henry ℝ).inUnit (1/1000)).callWithUnits (293.15 * (1/1000)) (1/1000) = 1.3e-3 := by
+  have := (henry_object_unit_mode_agrees ⟨1.3e-3, 1500, some 293.15⟩ 293.15 1 (1/1000) (by norm_num)).2.2.2
+  simpa using this
 
 /-- the hypotheses of the inverse theorem are satisfiable: O2 in water (test_henry) -/
 example : (⟨1.2e-3, 1800, none⟩ : Henry ℝ).Hcp ≠ 0 := by norm_num
